@@ -933,12 +933,51 @@ def deep_taxonomy_case(ex, depth=260):
     if bad:
         ex.fail('C18-deep', D, bad)
 
+def big_taxonomy_case(ex, nleaves=1200):
+    """a species tree with more than a thousand leaves (polytomies, leaf names not in alphabetical order): synthesised names
+    still list the leaves of the clade in TREE order, depths and the stored text are right (r13-C18a: a bulk path for large
+    taxonomies that sorts the names)"""
+    ids_ = list(range(nleaves)); ex.rng.shuffle(ids_)
+    it_ = iter(ids_)
+    per_ = nleaves // 60
+    T = ('', tuple(('', tuple(('', tuple(('S%04d' % next(it_), ()) for _ in range(per_))) for _ in range(10))) for _ in range(6)))
+    def leaves_of(t):
+        return [t[0]] if not t[1] else [x_ for k_ in t[1] for x_ in leaves_of(k_)]
+    def nwk(t):
+        return t[0] if not t[1] else '(' + ','.join(nwk(k_) for k_ in t[1]) + ')'
+    bad = []
+    try:
+        tx = pyham.taxonomy.Taxonomy(nwk(T) + ';', tree_format='newick_string', use_internal_name=False)
+        def walk(nd, t, depth):
+            want = t[0] if not t[1] else '/'.join(leaves_of(t))
+            if nd.name != want and len(bad) < 3:
+                bad.append('tree with %d leaves: a clade of %d leaves is named %s..., its leaves in tree order are %s...' % (nleaves, len(leaves_of(t)), str(nd.name)[:40], want[:40]))
+            if nd.depth != depth and len(bad) < 3:
+                bad.append('tree with %d leaves: depth %r at distance %d from the root' % (nleaves, nd.depth, depth))
+            if len(nd.children) != len(t[1]):
+                bad.append('tree with %d leaves: a node has %d children, the input %d' % (nleaves, len(nd.children), len(t[1]))); return
+            for c_, k_ in zip(nd.children, t[1]):
+                walk(c_, k_, depth + 1)
+        walk(tx.tree, T, 0)
+        import ete3
+        t2 = ete3.Tree(tx.tree_str, format=1, quoted_node_names=True)
+        if [n_.name for n_ in t2.traverse('preorder')] != [n_.name for n_ in tx.tree.traverse('preorder')]:
+            bad.append('tree with %d leaves: the stored Newick text re-parses to other names' % nleaves)
+    except Exception as e:      # noqa
+        bad.append('tree with %d leaves: building / inspecting the taxonomy raised %s: %s' % (nleaves, type(e).__name__, str(e)[:200]))
+    ex.res.count('taxonomies_with_more_than_1000_leaves')
+    if bad:
+        D = gen.Dataset(('big', ()), 'synth'); D.species = []; D.groups = []; D.families = []; D.base_groups = []; D.meta = {}
+        ex.res.oracle_failures.append(dict(case='C18-big', clauses=bad[:4], call='Taxonomy(<%d leaves>, use_internal_name=False)' % nleaves,
+                                           input=dict(newick=nwk(T)[:3000] + ' ...', naming='synth', orthoxml=''), extra=None, _D=None))
+
 def c18(tier, seed):
     import ete3
     ex = Explorer('C18', tier, seed)
     n = budget(tier, 250)
     if os.environ.get('VERIF_SHARD', '0/1').startswith('0/'):
         deep_taxonomy_case(ex, 260 + 10 * (seed % 5))
+        big_taxonomy_case(ex, 1200)
     for k in range(n):
         naming = ex.rng.choice(['own', 'synth'])
         T = gen.rand_tree(ex.rng, maxleaves=ex.rng.choice([2, 3, 4, 6, 9, 12]), fancy=ex.rng.random() < 0.6,
